@@ -14,6 +14,7 @@ use std::time::Instant;
 
 pub const DEFAULT_SEED: u64 = 20_260_926;
 
+#[derive(Clone)]
 pub struct RunCfg {
     pub property: String,
     pub tier: String,
@@ -34,6 +35,8 @@ pub struct RunCfg {
     pub only_stage: Option<u64>,
     /// tag for replay file names and signatures of secondary builds ("", "r08", "plain")
     pub build_label: String,
+    /// (stage arm id, run index) pairs not to execute: fatal runs outside this property's scope
+    pub skip: Vec<(u64, u64)>,
 }
 
 #[derive(Clone, Copy, Debug, PartialEq, Eq)]
@@ -132,8 +135,10 @@ impl Acc {
             Config::Benign => "benign",
             Config::Destructive => "destructive",
         }).or_insert(0) += 1;
-        for c in rep.outcome.chars().take(8) {
-            *self.outcome_letters.entry(c).or_insert(0) += 1;
+        if plan.arm == "pipeline" {
+            for c in rep.outcome.chars().take(8).filter(|c| "kKeEps-".contains(*c)) {
+                *self.outcome_letters.entry(c).or_insert(0) += 1;
+            }
         }
         let mut x = rep.digest ^ index.wrapping_mul(0x9E37_79B9_7F4A_7C15) ^ stage.arm_id;
         self.digest_sum = self.digest_sum.wrapping_add(splitmix64(&mut x));
@@ -266,7 +271,7 @@ pub fn start_watchdog(hang_file: String) {
 }
 
 pub fn run_stage(stage: &Stage, base_seed: u64, jobs: usize, property: &str, codec: Option<&str>, bits: Option<usize>, keep_digests: bool) -> Acc {
-    run_stage_range(stage, base_seed, jobs, property, codec, bits, keep_digests, 0, stage.runs, None)
+    run_stage_range(stage, base_seed, jobs, property, codec, bits, keep_digests, 0, stage.runs, None, &[])
 }
 
 #[allow(clippy::too_many_arguments)]
@@ -281,6 +286,7 @@ pub fn run_stage_range(
     from: u64,
     to: u64,
     points: Option<(usize, usize)>,
+    skip: &[(u64, u64)],
 ) -> Acc {
     use std::sync::atomic::Ordering::Relaxed;
     let mut total = Acc::default();
@@ -297,6 +303,10 @@ pub fn run_stage_range(
                     let mut acc = Acc::default();
                     let mut i = from + w as u64;
                     while i < to {
+                        if skip.contains(&(stage.arm_id, i)) {
+                            i += jobs as u64;
+                            continue;
+                        }
                         let seed = run_seed(base_seed, stage.arm_id, i);
                         acc.runs += 1;
                         HEART_POINT[w].store(0, Relaxed);
@@ -411,7 +421,7 @@ pub fn run(cfg: &RunCfg) -> u8 {
             Some((arm, _)) if st.iter().position(|x| x.arm_id == arm) < st.iter().position(|x| x.arm_id == s.arm_id) => 0,
             _ => s.runs,
         };
-        let acc = run_stage_range(s, cfg.seed, cfg.jobs, &cfg.property, cfg.codec.as_deref(), cfg.bits, false, 0, to, None);
+        let acc = run_stage_range(s, cfg.seed, cfg.jobs, &cfg.property, cfg.codec.as_deref(), cfg.bits, false, 0, to, None, &cfg.skip);
         let dt = ts.elapsed().as_secs_f64();
         println!("  stage {:<32} runs={:<9} evaluations={:<10} violating={:<7} {:.1}s", s.name, acc.runs, acc.evals, acc.violating_runs, dt);
         stage_info.push(json!({"stage": s.name, "runs": acc.runs, "evaluations": acc.evals, "seed_index_range": [0, s.runs], "wall_s": dt, "batch_digest": format!("{:016x}", acc.digest_sum)}));
@@ -544,7 +554,7 @@ fn evidence(
         "C16" => &["W-SHORT", "W-EINTR", "R-SHORT", "R-EINTR", "D-PREFILL", "D-EXACT", "S-FORM", "L-NONE", "L-BIG", "W-ERR", "S-ERR"],
         "C17" => &[
             "W-SHORT", "W-EINTR", "R-SHORT", "R-EINTR", "D-PREFILL", "S-FORM", "L-NONE", "L-BIG", "W-ERR", "M-TRUNC", "M-FLIP", "M-SUB", "M-ZERO",
-            "M-DUP", "M-TAIL", "M-FIELD", "M-GARBAGE", "M-PAD0", "R-ERR", "R-EOF", "A-BUDGET", "L-SMALL", "S-FLAG", "S-ALIEN", "S-ERR", "P-SKEW", "N-NEG", "T-TRUNC", "T-SUB",
+            "M-DUP", "M-TAIL", "M-FIELD", "M-GARBAGE", "M-FORGE", "M-PAD0", "R-ERR", "R-EOF", "A-BUDGET", "L-SMALL", "S-FLAG", "S-ALIEN", "S-ERR", "P-SKEW", "N-NEG", "T-TRUNC", "T-SUB",
             "T-INS", "T-MULTIBYTE", "T-UNDERSCORE", "T-CASE", "T-PREFIX", "T-RADIX", "T-DIGIT", "T-OVER", "G-DROP", "G-CORRUPT", "G-APPEND", "G-BASE",
         ],
         _ => &["E-STREAM", "E-FAIL", "E-DRY", "E-SEED", "E-WALK", "M-FLIP", "M-TRUNC", "R-EINTR"],
@@ -593,6 +603,7 @@ fn evidence(
             "known_findings_matched": known.iter().map(|(id, (f, p))| json!({"id": id, "what": f.what, "replay": p})).collect::<Vec<_>>(),
             "violations": reported.iter().map(|(k, p, v, path, _)| json!({"class": k.class, "codec": p.codec, "bits": p.bits, "detail": v.detail, "replay": path})).collect::<Vec<_>>(),
             "build_profile": cfg.profile,
+            "fatal_runs_skipped_outside_scope": cfg.skip.iter().map(|(s, i)| json!({"stage_arm_id": s, "run_index": i})).collect::<Vec<_>>(),
             "feature_configuration": if cfg!(feature = "r09") { "ruint features rand + rand-09 (inherent random_with/randomize_with are the rand 0.9 ones)" } else { "ruint feature rand only (inherent random_with/randomize_with are the rand 0.8 ones)" },
             "restriction": {"codec": cfg.codec, "bits": cfg.bits},
         },
@@ -689,7 +700,7 @@ pub fn digest(property: &str, runs: u64, jobs: usize, seed: u64, per_run: bool) 
 /// Execute a seed range of one stage without triage (used by the supervisor to isolate a fatal run).
 pub fn probe(cfg: &RunCfg, arm_id: u64, from: u64, to: u64, points: Option<(usize, usize)>) -> u8 {
     let Some(stage) = stages(&cfg.property, &cfg.tier, cfg.scale).into_iter().find(|s| s.arm_id == arm_id) else { return 2 };
-    let acc = run_stage_range(&stage, cfg.seed, cfg.jobs, &cfg.property, cfg.codec.as_deref(), cfg.bits, false, from, to.min(stage.runs), points);
+    let acc = run_stage_range(&stage, cfg.seed, cfg.jobs, &cfg.property, cfg.codec.as_deref(), cfg.bits, false, from, to.min(stage.runs), points, &cfg.skip);
     println!("probe: {} evaluations", acc.evals);
     0
 }
